@@ -63,8 +63,20 @@ def c17Dump (g : Graph) (o : Option Order.OMap) (tomb : Bool) : String :=
     s!"{base} | RC {rc} | RN {rn}"
   else base
 
+/-- `w<sats>` = the lookup answers a TxOut of <sats> paying to ANOTHER script (script identities: 1 = the one the
+    lookup returned, 0 = the expected 2-of-2 of the announced bitcoin keys); `v<sats>` = paying to the expected one -/
 def c17Utxo (s : String) : Utxo :=
-  if s == "n" then .noLookup else if s == "u" then .unknownTx else .value (nat! (s.drop 1).toString)
+  if s == "n" then .noLookup else if s == "u" then .unknownTx
+  else if s.startsWith "w" then Impl.utxoOfTxOut (nat! (s.drop 1).toString) 1 0
+  else Impl.utxoOfTxOut (nat! (s.drop 1).toString) 0 0
+
+/-- a `ca` line whose lookup answered a TxOut with another script: the library's refusal carries its own text -/
+def c17WrongScript : List String → Bool
+  | ["ca", _, _, _, _, _, _, _, _, _, _, ux, _] => ux.startsWith "w"
+  | _ => false
+def c17Answer (ws : List String) (o : Outcome) : String :=
+  let out := c17ShowOutcome o
+  if c17WrongScript ws then out.replace "UtxoUnknownTx" "UtxoScriptMismatch" else out
 
 def c17b (s : String) : Bool := s == "1"
 
@@ -176,7 +188,7 @@ def c17 : Drv where
         match c17Parse ws with
         | some op =>
           let r := Async.step st.a (.base op)
-          (st.next r.1 (Order.movedScid st.a.g op r.2), c17ShowOutcome r.2)
+          (st.next r.1 (Order.movedScid st.a.g op r.2), c17Answer ws r.2)
         | none => (st, "bad-op")
 
 end Ldk.Driver
